@@ -73,7 +73,7 @@ CHECKS = {
    "5 C13"),
  "C14": ("model_checking",
    "complete enumeration over all 784 versions x 81 port configurations; schema compared with two independently built expectations; leaves addressed by name",
-   "Arrow schema (names, nesting, order, primitive types) equals the SPEC transcription and gen/resources/frames.json; one row per frame; struct validity == presence at every nesting level; every exported leaf == in-memory column; import serialises to the identical .slp.",
+   "Arrow schema (names, nesting, order, primitive types) equals the SPEC transcription and gen/resources/frames.json; one row per frame; struct validity == presence at every nesting level; every exported leaf == in-memory column; frames imported from a window (rows k..) of the exported array export and import to the same window; import serialises to the identical .slp.",
    "Nullability flags not compared; `end` (3.0-3.6) and `ports` (no player) may be omitted: Arrow has no field-less struct.",
    "5 C14"),
  "C15": ("model_checking",
